@@ -155,7 +155,22 @@ class Explorer:
         raise Unsupported('hash() of builtin value (use a contract with the hash model)')
 
     def frac_part(self, P, v, attr):
-        raise Unsupported('numerator/denominator of symbolic Fraction')
+        """
+        numerator / denominator of a symbolic Fraction v: integers n, d with d >= 1 and v == n/d
+        (one pair per term and path).  Of 'lowest terms' only "n, d not both even" is stated
+        (all that statements about powers of two can use); full coprimality is left unspecified.
+        """
+        cache = P.__dict__.setdefault('_frac_parts', {})
+        key = v.get_id()
+        if key not in cache:
+            base = v.decl().name() if z3.is_const(v) else P.fresh_name('frac')
+            n, d = z3.Int(base + '#num'), z3.Int(base + '#den')
+            P.assume(z3.And(d >= 1, v == z3.ToReal(n) / z3.ToReal(d), z3.ToReal(n) == v * z3.ToReal(d),
+                            z3.Or(n % 2 != 0, d % 2 != 0), z3.Implies(v == 0, z3.And(n == 0, d == 1)),
+                            (n > 0) == (v > 0), (n < 0) == (v < 0)), fact=True)
+            cache[key] = (n, d, v)
+        n, d, _ = cache[key]
+        return n if attr == 'numerator' else d
 
     def external_contract(self, name):
         return self.externals.get(name)
